@@ -1,4 +1,5 @@
-(* Extract.v — extraction of the executable models to OCaml (ExtrOcamlBasic only;
+(* Extract.v — (append `From … Require` lines and root lines; the command ends with the lone `.` line)
+ extraction of the executable models to OCaml (ExtrOcamlBasic only;
    N/Z/positive/nat stay Coq datatypes; no Extract Constant). Run from the output dir. *)
 From Coq Require Import Extraction ExtrOcamlBasic.
 From KV Require Import Bytes WalCodec Memtable Engine.
@@ -6,7 +7,20 @@ From KV Require Import ReadOnly.
 From KV Require Import ApiView.
 From KV Require Import ReplProto.
 From KV Require Import BlockView.
+From KV Require Import Config.
+From KV Require Import Hist.
+From KV Require Import LockDiscipline.
+From KV.gen Require Locks.
+From KV Require Import SSTable Xxhash Block SSTFile.
+From KV Require Import Iter.
+From KV Require Import Compaction.
+From KV Require Import Txn.
+From KV Require Import TxnAtomic.
+From KV Require Import Service.
+From KV Require Import Repl.
 Extraction Language OCaml.
+(* Coq's String module (identifiers of the C07 lock table) must not shadow OCaml's: it is emitted as String0 *)
+Extraction Blacklist String.
 Set Extraction Output Directory ".".
 Separate Extraction
   Bytes.crc32 Bytes.bcmp Bytes.le Bytes.unle
@@ -22,4 +36,28 @@ Separate Extraction
   ReadOnly.node_scan ReadOnly.node_info ReadOnly.rw_open ReadOnly.any_open ApiView.api_view
   ReplProto.sys_init ReplProto.step ReplProto.settle ReplProto.views_agree ReplProto.scan_of
   ReplProto.idle ReplProto.good
-  BlockView.known_blocked_path BlockView.known_inversion.
+  BlockView.known_blocked_path BlockView.known_inversion
+  Config.default_config Config.zero_config Config.field_lookup Config.kind_of Config.name_of Config.all_fields
+  Config.get_int Config.get_str Config.set_int Config.set_str Config.set_ratio Config.validate Config.encode
+  Config.save Config.load Config.load_bytes Config.open_db Config.no_dir Config.mkdir Config.truncate_manifest
+  Config.flip_bit Config.pnum Config.float_of_num Config.enc_int Config.N_of_dec Config.dec_of_N
+  Hist.lin_check Hist.lin_verdicts
+  LockDiscipline.protectedb LockDiscipline.flagged_rows LockDiscipline.acyclicb Locks.gen_accesses Locks.gen_order
+  SSTable.write SSTable.cut SSTable.ti_new SSTable.ti_seek_first SSTable.ti_seek_last SSTable.ti_seek SSTable.ti_next
+  SSTable.ti_valid SSTable.ti_cur SSTable.t_get SSTable.wf_sentry SSTable.ascending
+  Xxhash.xxh64 Block.encode_block Block.new_reader Block.it_new Block.it_seek_first Block.it_next
+  Block.it_seek Block.it_seek_prev Block.it_seek_last Block.it_valid Block.it_entry Block.block_scan
+  SSTFile.file_parts SSTFile.parts_bytes SSTFile.enc_footer SSTFile.read_file SSTFile.upd
+  SSTFile.bl_of_block SSTFile.bl_contains SSTFile.bl_bytes SSTFile.parse_locator SSTFile.filters_bytes
+  Block.slice
+  Iter.eng_it Iter.eng_range_it Iter.tx_it Iter.tx_range_it Iter.eng_iter Iter.tx_full Iter.tx_range
+  Iter.filtered_iter Iter.prefix_filter Iter.suffix_filter Iter.scan Iter.collect Iter.eng_sources
+  Compaction.cinit Compaction.cput Compaction.cdel Compaction.cbatch Compaction.ccommit Compaction.cflush
+  Compaction.cfull Compaction.ctrigger Compaction.crange Compaction.creopen Compaction.cget Compaction.select
+  Compaction.select_range Compaction.dsort Compaction.nfresh
+  Txn.ser_check Txn.ser_why
+  TxnAtomic.atomic_check TxnAtomic.first_reject TxnAtomic.crun TxnAtomic.twrites TxnAtomic.cinit
+  Service.service_step Service.sstep Service.srun Service.sinit Service.code_limits Service.req_size
+  Repl.new_replica Repl.process Repl.stream_start Repl.acknowledge_up_to Repl.seg Repl.pick Repl.poll
+  Repl.view Repl.primary_view Repl.deserialize Repl.to_proto
+.
